@@ -444,6 +444,10 @@ class Impl:
             a = record.args[0] if isinstance(record.args, tuple) else record.args
             jid = self.job_id(a)
         self.events.append("EV log %d" % jid)
+        job = self.jobs.get(jid)
+        if job is not None and job.failed_attempts > job.attempts:
+            # whoever looks (a log handler does) must never see more failures than attempts
+            self.events.append("EV counters %d failed=%d attempts=%d" % (jid, job.failed_attempts, job.attempts))
 
     def init(self, o):
         _, tz, mx, prio, now, ctor = o
@@ -464,6 +468,17 @@ class Impl:
                                [self.timing_obj(e) for e in c["timing"]], cb, **kw)
                 self.jobs[jid] = job
                 jobs.add(job)
+            # the constructor takes any iterable of jobs: vary the kind with the history
+            kind = ["set", "list", "tuple", "gen", "frozenset"][(now // 1000 + len(ctor)) % 5]
+            self.ctor_container = jobs
+            if kind == "list":
+                jobs = list(jobs)
+            elif kind == "tuple":
+                jobs = tuple(jobs)
+            elif kind == "gen":
+                jobs = (j for j in list(jobs))
+            elif kind == "frozenset":
+                jobs = frozenset(jobs)
         inner = {"linear": m["prioritization"].linear_priority_function,
                  "const": m["prioritization"].constant_weight_prioritization,
                  "table": self.table_prio}[prio]
@@ -477,9 +492,16 @@ class Impl:
             self.logger = logging.getLogger("scheduler")
             self.logger.propagate = False
         self.handler = _CountingHandler(self.on_log)
-        self.logger.handlers = [self.handler]
+        # a logger is often configured after the scheduler was built: no handler yet at construction time
+        self.logger.handlers = []
         self.logger.setLevel(logging.DEBUG)
         self.sch = m["scheduler"].Scheduler(**kw)
+        self.logger.handlers = [self.handler]
+        # the iterable handed to the constructor stays the caller's: mutating it later must not matter
+        cc = getattr(self, "ctor_container", None)
+        if isinstance(cc, set) and jobs is cc:
+            cc.clear()
+            cc.add(self.foreign_job())
 
     def observe(self, res):
         out = []
